@@ -1,93 +1,106 @@
-import UgoVerif.VM.Reset
+import UgoVerif.Proofs.ModCache
 /-
-  Running an `M` action on a state, rewriting rules for the monad structure, and the
-  invariant calculus `Keeps P m` ("m preserves the state predicate P, whether it ends
-  normally, with a Go panic or outside the model").
+  Small-step execution lemmas for the VM model's primitive accessors (`exec m s` runs a
+  model computation on a state; defined in Proofs/ModCache).
 -/
-namespace UgoVerif.VM
-open UgoVerif UgoVerif.Go
+namespace UgoVerif.Proofs.VMExec
+open UgoVerif UgoVerif.Go UgoVerif.VM UgoVerif.Proofs.ModCache
 
-/-- run an action: result (or abnormal end) and the state it leaves -/
-def exec {α} (m : M α) (s : State) : Except Exc α × State := m.run.run s
+theorem exec_getS (s : State) : exec getS s = (.ok s, s) := rfl
+theorem exec_modS (f : State → State) (s : State) : exec (modS f) s = (.ok (), f s) := rfl
+theorem exec_curFrame (s : State) : exec curFrame s = (.ok (s.frames[s.curFrame]!), s) := rfl
+theorem exec_setCurFrame (f : Frame → Frame) (s : State) :
+    exec (setCurFrame f) s = (.ok (), { s with frames := s.frames.modify s.curFrame f }) := rfl
+theorem exec_getSp (s : State) : exec getSp s = (.ok s.sp, s) := rfl
+theorem exec_setSp (v : Int) (s : State) : exec (setSp v) s = (.ok (), { s with sp := v }) := rfl
+theorem exec_getIp (s : State) : exec getIp s = (.ok s.ip, s) := rfl
+theorem exec_setIp (v : Int) (s : State) : exec (setIp v) s = (.ok (), { s with ip := v }) := rfl
+theorem exec_bumpIp (n : Int) (s : State) : exec (bumpIp n) s = (.ok (), { s with ip := s.ip + n }) := rfl
 
-@[simp] theorem exec_pure {α} (a : α) (s : State) : exec (pure a : M α) s = (.ok a, s) := rfl
+theorem exec_stackSet (i : Int) (v : V) (s : State) (h : 0 ≤ i ∧ i < (stackSize : Int)) :
+    exec (stackSet i v) s = (.ok (), { s with stack := s.stack.set! i.toNat v }) := by
+  unfold stackSet
+  have : ¬ (i < 0 || i ≥ (stackSize : Int)) = true := by
+    simp; omega
+  simp only [this, if_false]
+  rfl
 
-theorem exec_bind {α β} (m : M α) (f : α → M β) (s : State) :
-    exec (m >>= f) s = match exec m s with
-      | (.ok a, s') => exec (f a) s'
-      | (.error e, s') => (.error e, s') := by
-  simp only [exec, ExceptT.run_bind, StateT.run_bind]
-  show (match (m.run.run s) with | (r, s') => _) = _
-  rcases h : m.run.run s with ⟨r, s'⟩
-  cases r <;> simp <;> rfl
+theorem exec_stackGet (i : Int) (s : State) (h : 0 ≤ i ∧ i < (stackSize : Int)) :
+    exec (stackGet i) s = (.ok (s.stack[i.toNat]!), s) := by
+  unfold stackGet
+  have : ¬ (i < 0 || i ≥ (stackSize : Int)) = true := by
+    simp; omega
+  simp only [exec_bind, exec_getS]
+  rw [if_neg this]
+  rfl
 
-theorem exec_map {α β} (f : α → β) (m : M α) (s : State) :
-    exec (f <$> m) s = match exec m s with
-      | (.ok a, s') => (.ok (f a), s')
-      | (.error e, s') => (.error e, s') := by
-  rw [map_eq_pure_bind, exec_bind]
-  rcases exec m s with ⟨r, s'⟩
-  cases r <;> rfl
+theorem exec_heapSet (a : Addr) (c : Cell) (s : State) :
+    exec (heapSet a c) s = (.ok (), { s with heap := s.heap.set! a c }) := rfl
 
-@[simp] theorem exec_getS (s : State) : exec getS s = (.ok s, s) := rfl
-@[simp] theorem exec_get (s : State) : exec (get : M State) s = (.ok s, s) := rfl
-@[simp] theorem exec_modS (f : State → State) (s : State) : exec (modS f) s = (.ok (), f s) := rfl
-@[simp] theorem exec_set (s' s : State) : exec (set s' : M Unit) s = (.ok (), s') := rfl
-@[simp] theorem exec_throw {α} (e : Exc) (s : State) : exec (throw e : M α) s = (.error e, s) := rfl
-@[simp] theorem exec_panic {α} (m : String) (s : State) : exec (panic m : M α) s = (.error (.panic m), s) := rfl
-@[simp] theorem exec_unsupported {α} (m : String) (s : State) :
-    exec (unsupported m : M α) s = (.error (.unsupported m), s) := rfl
+theorem exec_pushV (v : V) (s : State) (h : 0 ≤ s.sp ∧ s.sp < (stackSize : Int)) :
+    exec (pushV v) s = (.ok (), { s with stack := s.stack.set! s.sp.toNat v, sp := s.sp + 1 }) := by
+  unfold pushV
+  simp only [exec_bind, exec_getSp, exec_stackSet _ _ _ h, exec_setSp]
 
-/-- `m` preserves `P` on every path -/
-def Keeps {α} (P : State → Prop) (m : M α) : Prop := ∀ s, P s → P (exec m s).2
+/-- handler stack of the current frame (innermost first) -/
+def handlersOf (s : State) : Option (List Handler) := (s.frames[s.curFrame]!).handlers
 
-namespace Keeps
-variable {P : State → Prop}
+theorem handlersOf_modify (s : State) (g : Frame → Frame) (hc : s.curFrame < s.frames.size) :
+    handlersOf { s with frames := s.frames.modify s.curFrame g } = (g (s.frames[s.curFrame]!)).handlers := by
+  unfold handlersOf
+  simp [hc, Array.getElem_modify]
 
-theorem pure {α} (a : α) : Keeps P (Pure.pure a : M α) := fun _ h => h
-theorem throw {α} (e : Exc) : Keeps P (MonadExcept.throw e : M α) := fun _ h => h
-theorem panic {α} (m : String) : Keeps P (VM.panic m : M α) := fun _ h => h
-theorem unsupported {α} (m : String) : Keeps P (VM.unsupported m : M α) := fun _ h => h
-theorem getS : Keeps P VM.getS := fun _ h => h
-theorem get : Keeps P (MonadState.get : M State) := fun _ h => h
+theorem hasHandler_of (s : State) (h : Handler) (r : List Handler) (hh : handlersOf s = some (h :: r)) :
+    hasHandler (s.frames[s.curFrame]!) = true := by
+  unfold handlersOf at hh
+  simp [hasHandler, hh]
 
-theorem bind {α β} {m : M α} {f : α → M β} (hm : Keeps P m) (hf : ∀ a, Keeps P (f a)) :
-    Keeps P (m >>= f) := by
-  intro s hs
-  rw [exec_bind]
-  have := hm s hs
-  rcases h : exec m s with ⟨r, s'⟩
-  rw [h] at this
-  cases r with
-  | ok a => exact hf a s' this
-  | error e => exact this
+theorem lastHandler_of (s : State) (h : Handler) (r : List Handler) (hh : handlersOf s = some (h :: r)) :
+    lastHandler (s.frames[s.curFrame]!) = some h := by
+  unfold handlersOf at hh
+  simp [lastHandler, hh]
 
-theorem modS {f : State → State} (hf : ∀ s, P s → P (f s)) : Keeps P (VM.modS f) := fun s h => hf s h
-theorem set' {s' : State} (h : P s') : Keeps P (MonadStateOf.set s' : M Unit) := fun _ _ => h
+/-! ### loops over stack slots, allocation, slices -/
 
-theorem ite {α} {c : Prop} [Decidable c] {a b : M α} (ha : Keeps P a) (hb : Keeps P b) :
-    Keeps P (if c then a else b) := by split <;> assumption
+set_option linter.unusedSimpArgs false
+set_option linter.unusedVariables false
 
-theorem forIn_list {α β} (l : List α) (init : β) (f : α → β → M (ForInStep β))
-    (hf : ∀ a b, Keeps P (f a b)) : Keeps P (forIn l init f) := by
-  induction l generalizing init with
-  | nil => exact Keeps.pure _
-  | cons a as ih =>
-    rw [List.forIn_cons]
-    refine Keeps.bind (hf a init) ?_
-    intro x
-    cases x with
-    | done b => exact Keeps.pure _
-    | yield b => exact ih b
+theorem exec_forIn_list_stackSet (v : V) (l : List Nat) (s : State)
+    (f : Nat → Int) (hb : ∀ k ∈ l, 0 ≤ f k ∧ f k < (stackSize : Int)) :
+    exec (forIn l () (fun k _ => do stackSet (f k) v; pure (ForInStep.yield ()))) s =
+      (.ok (), { s with stack := l.foldl (fun st k => st.set! (f k).toNat v) s.stack }) := by
+  induction l generalizing s with
+  | nil => simp [exec_pure]
+  | cons k r ih =>
+    simp only [List.forIn_cons, exec_bind]
+    rw [exec_stackSet _ _ _ (hb k (by simp))]
+    simp only [exec_pure]
+    rw [ih _ (fun k hk => hb k (by simp [hk]))]
+    simp
 
-theorem forIn_range {β} (r : Std.Legacy.Range) (init : β) (f : Nat → β → M (ForInStep β))
-    (hf : ∀ a b, Keeps P (f a b)) : Keeps P (forIn r init f) := by
-  rw [Std.Legacy.Range.forIn_eq_forIn_range']
-  exact forIn_list _ _ _ hf
+/-- the Go loop `for k := 0; k < n; k++ { vm.stack[f(k)] = v }` -/
+theorem exec_range_stackSet (v : V) (n : Nat) (s : State) (f : Nat → Int)
+    (hb : ∀ k, k < n → 0 ≤ f k ∧ f k < (stackSize : Int)) :
+    exec (forIn [:n] PUnit.unit (fun k _ => do stackSet (f k) v; pure (ForInStep.yield PUnit.unit))) s =
+      (.ok PUnit.unit, { s with stack := (List.range' 0 n).foldl (fun st k => st.set! (f k).toNat v) s.stack }) := by
+  simp only [Std.Legacy.Range.forIn_eq_forIn_range', Std.Legacy.Range.size]
+  have := exec_forIn_list_stackSet v (List.range' 0 n) s f (by
+    intro k hk; simp [List.mem_range'] at hk; exact hb k (by omega))
+  simpa using this
 
-theorem elim {α} {m : M α} (h : Keeps P m) (s : State) (hs : P s) : P (exec m s).2 := h s hs
-theorem intro' {α} {m : M α} (h : ∀ s, P s → P (exec m s).2) : Keeps P m := h
+theorem exec_alloc (c : Cell) (s : State) : exec (alloc c) s = (.ok s.heap.size, { s with heap := s.heap.push c }) := rfl
 
-end Keeps
-attribute [irreducible] Keeps
-end UgoVerif.VM
+theorem exec_newArray (xs : List V) (s : State) :
+    exec (newArray xs) s = (.ok (.arr s.heap.size 0 xs.length), { s with heap := s.heap.push (.arr xs.toArray) }) := by
+  unfold newArray
+  simp only [exec_bind, exec_alloc, exec_pure]
+
+theorem exec_stackSlice (lo hi : Int) (s : State) (h : 0 ≤ lo ∧ lo ≤ hi ∧ hi ≤ (stackSize : Int)) :
+    exec (stackSlice lo hi) s = (.ok ((s.stack.toList.drop lo.toNat).take (hi - lo).toNat), s) := by
+  unfold stackSlice
+  have : ¬ ((decide (lo < 0) || decide (hi > (stackSize : Int)) || decide (lo > hi)) = true) := by
+    simp; omega
+  simp only [this, Bool.false_eq_true, ↓reduceIte, exec_bind, exec_getS, exec_pure]
+
+
+end UgoVerif.Proofs.VMExec
